@@ -20,6 +20,10 @@ func (ser *MultiEpoch) tryEnrichGetVersion(body []byte) ([]byte, error) {
 	if err := fasterJson.Unmarshal(*decodedRemote.Result, &decodedResult); err != nil {
 		return nil, fmt.Errorf("failed to decode result: %w", err)
 	}
+	if decodedResult == nil {
+		// "result":null decodes without error and leaves the map nil
+		return nil, fmt.Errorf("result is not an object")
+	}
 	// enrich the result:
 	faithfulVersion := ser.GetFaithfulVersionInfo()
 	decodedResult["faithful"] = faithfulVersion
